@@ -227,6 +227,10 @@ def recount(sc, r, stats):
     comp = {}
     for _, p in delivered:
         ops = list(p.runtime_status().operator_states)
+        if not ops:
+            # not a well-formed pipeline (every pipeline has at least one operator): nothing can complete it
+            w.flag({"C15", "C08"}, "pipeline-without-operators", f"the workload delivered pipeline {p.pipeline_id} with an empty operator DAG")
+            continue
         if all(SV[id(s)] == C for s in p.runtime_status().operator_states.values()):
             comp[p] = max(last_done.get(op, -1) for op in ops)
     fin = collections.defaultdict(list)
@@ -356,6 +360,14 @@ def space(kind, tier):
                                 combo = ((pr, arr, shape, profs),)
                                 need = sum({"s1": 1, "s2": 2, "s3": 3, "io2": 2, "c1io1": 2, "z": 1}[profs[i % len(profs)]] for i in range(len(f5.SHAPES[shape])))
                                 out.append((algo, cfg, combo, tps, arr + need + 3, dict(small=0.25), need))
+            # two independent branches r1 -> x, r2 -> y under schedulers that run ready operators side by side: the
+            # pipeline needs its longest branch, whichever branch gets ready first
+            T = {"s1": 1, "s2": 2, "s3": 3}
+            for algo, cfg in (("priority", (1, 10, 40, False, False)), ("overbook", (1, 4, 8, True, True)), ("overbook", (2, 2, 8, True, True))):
+                for profs in (("s3", "s1", "s1", "s3"), ("s1", "s3", "s3", "s1"), ("s3", "s1", "s2", "s1"), ("s1", "s2", "s1", "s3"), ("s2", "s1", "s1", "s1")):
+                    for pr in ("Q", "B"):
+                        need = max(T[profs[0]] + T[profs[2]], T[profs[1]] + T[profs[3]])
+                        out.append((algo, cfg, ((pr, 0, "twobranch", profs),), tps, need + 3, dict(small=0.25), need))
     return out
 
 
@@ -404,6 +416,15 @@ def gen_space(tier):
                 duration = {"0.4t": 0.4 / tps, "1t": 1.0 / tps, "10t": 10.0 / tps, "60s": 60}[dur]
                 for seed in ((0,) if q else (0, 1)):
                     add(algo, oc, 2, 64, 256, True, tps, duration, seed, wait=(10.0 if dur == "60s" else 2.0 / tps), npipe=4, nops=5)
+    # G4: workload shape parameters (pipelines of one operator, many pipelines per event, long chains), short gaps
+    for algo, oc in scheds:
+        for nops in (1, 2, 8):
+            for npipe in (1, 3, 6):
+                for seed in ((0, 1) if q else (0, 1, 2, 3, 4, 5)):
+                    for multi in (True, False):
+                        if algo == "priority-pool" and not multi:
+                            continue
+                        add(algo, oc, 2, 8, 64, multi, 10, 4, seed, wait=0.3, npipe=npipe, nops=nops)
     return out
 
 
